@@ -36,8 +36,8 @@ ASSUMPTIONS = [
 ]
 
 WORDS = ["alpha", "beta", "gamma", "delta", "eps", "zeta", "eta", "theta", "iota", "kappa"]
-RESERVED = ["select", "order", "group", "table", "index", "check", "unique", "constraint", "primary", "references", "default", "key", "foreign", "where", "on"]
-STR_DEFAULTS = ["abc", "it's", 'say "hi"', "(paren)", "a,b", "100%", "", "x) y (", "CHECK (1)"]
+RESERVED = ["nothing", "returning", "select", "order", "group", "table", "index", "check", "unique", "constraint", "primary", "references", "default", "key", "foreign", "where", "on"]
+STR_DEFAULTS = ["abc", "it's", 'say "hi"', "(paren)", "a,b", "100%", "", "x) y (", "unique key"]
 EXPR_DEFAULTS = ["CURRENT_TIMESTAMP", "(1 + 2)", "abs(-7)", "NULL", "-3", "1.5", "(length('a)b'))"]
 ACTIONS = [None, "CASCADE", "SET NULL", "RESTRICT", "NO ACTION", "SET DEFAULT"]
 CHECKS = ["{c} > 5", "{c} IS NOT NULL AND ({c} < 100 OR {c} = 7)", "{c} != ')'", "length({c}) > 2", "{c} IN (1, 2, (3))", "{c} != 'it''s (' AND {c} != '\"'", "({c} >= 0)"]
@@ -117,6 +117,18 @@ def strip_parens(s):
 
 
 # ----------------------------------------------------------------------------- normalise the case into a definition
+def _cname(spec, pinned, ctx):
+    """constraint names: '$' family remapped (known finding, CONSTRAINT name regexes use \\w+)"""
+    if spec is None:
+        return None
+    spec = list(spec)
+    if spec[0] % 9 == 5 and not pinned:
+        if ctx:
+            ctx.exclude("'$' in a PK/UNIQUE/FK constraint name (known finding: SQLite reflection regexes treat unquoted identifiers as [a-z0-9_]+)")
+        spec[0] = 0
+    return mkname(spec, pinned)
+
+
 def normalise(case, ctx=None):
     """-> list of table definitions with concrete names; every index is taken modulo the available count"""
     pinned = bool(case.get("pinned"))
@@ -144,7 +156,7 @@ def normalise(case, ctx=None):
             cols.append({"name": "c0", "nk": 0, "type": 0, "nullable": True, "default": None, "unique": False})
         n = len(cols)
         pk = list(dict.fromkeys(x % n for x in t.get("pk", [])))[:2]
-        d = {"name": name, "schema": schema, "cols": cols, "pk": pk, "pkname": mkname(t["pkname"], pinned) if t.get("pkname") and pk else None,
+        d = {"name": name, "schema": schema, "cols": cols, "pk": pk, "pkname": _cname(t["pkname"], pinned, ctx) if t.get("pkname") and pk else None,
              "autoinc": bool(t.get("autoinc")) and len(pk) == 1 and cols[pk[0]]["type"] == 0, "uqs": [], "ixs": [], "cks": [], "fks": [], "ti": ti}
         tuples = {tuple(pk)} if pk else set()
         for c_i, c in enumerate(cols):
@@ -158,7 +170,7 @@ def normalise(case, ctx=None):
             if not cs or cs in tuples:
                 continue
             tuples.add(cs)
-            d["uqs"].append({"cols": list(cs), "name": mkname(u[1], pinned) if u[1] else None})
+            d["uqs"].append({"cols": list(cs), "name": _cname(u[1], pinned, ctx) if u[1] else None})
         for k, ix in enumerate(t.get("ixs", [])[:3]):
             cs = list(dict.fromkeys(x % n for x in ix[0]))[:3] or [0]
             d["ixs"].append({"cols": cs, "unique": bool(ix[1]), "where": (ix[2] % len(WHERES)) if ix[2] is not None else None, "expr": bool(ix[3]),
@@ -177,9 +189,28 @@ def normalise(case, ctx=None):
             lcols = list(dict.fromkeys(x % n for x in fk[0]))[: len(rcols)]
             if len(lcols) < len(rcols):
                 rcols = rcols[: len(lcols)]
-            d["fks"].append({"cols": lcols, "target": tgt["ti"], "rcols": list(rcols), "ondelete": ACTIONS[fk[2] % len(ACTIONS)], "onupdate": ACTIONS[fk[3] % len(ACTIONS)],
-                             "name": (mkname(fk[4], pinned) + f"_fk{ti}{k}") if fk[4] else None, "deferrable": [None, True, False][fk[5] % 3],
+            if any(x["cols"] == lcols and x["target"] == tgt["ti"] for x in d["fks"]):
+                continue  # two identical FK constraints: not a meaningful schema
+            d["fks"].append({"cols": lcols, "target": tgt["ti"], "tname": tgt["name"], "rcols": list(rcols), "ondelete": ACTIONS[fk[2] % len(ACTIONS)], "onupdate": ACTIONS[fk[3] % len(ACTIONS)],
+                             "name": (_cname(fk[4], pinned, ctx) + f"_fk{ti}{k}") if fk[4] else None, "deferrable": [None, True, False][fk[5] % 3],
                              "initially": [None, "DEFERRED", "IMMEDIATE"][fk[6] % 3] if fk[5] % 3 else None})  # INITIALLY needs [NOT] DEFERRABLE in SQLite
+    # known finding: '.' in the name of a column/table that a reflected FK refers to (the reflected FK target is a dotted string)
+    if not pinned:
+        for d in tabs:
+            referred_cols = {x for other in tabs for f in other["fks"] if f["target"] == d["ti"] for x in f["rcols"]}
+            is_target = any(f["target"] == d["ti"] for other in tabs for f in other["fks"])
+            if is_target and "." in d["name"]:
+                if ctx:
+                    ctx.exclude("'.' in the name of a table/column referred to by a FK (known finding: reflected FK target string is split on dots)")
+                d["name"] = d["name"].replace(".", "_d_")
+            for ci in sorted(referred_cols):
+                c = d["cols"][ci]
+                if "." in c["name"]:
+                    if ctx:
+                        ctx.exclude("'.' in the name of a table/column referred to by a FK (known finding: reflected FK target string is split on dots)")
+                    new = c["name"].replace(".", "_d_")
+                    if new.lower() not in {x["name"].lower() for x in d["cols"]}:
+                        c["name"] = new
     # known finding: '$' in identifiers that the regex-based parts of SQLite reflection must read (UNIQUE / FK column lists)
     if not pinned:
         for d in tabs:
@@ -222,6 +253,8 @@ def _default_clause(spec, pinned):
         return text(e), e
     if kind == "raw" and pinned:
         return text(v), v
+    if kind == "rawstr" and pinned:
+        return v, "'" + v.replace("'", "''") + "'"
     return None, None
 
 
@@ -384,6 +417,11 @@ ASPECTS = ["cols", "pk", "fks", "uqs", "ixs", "cks", "n_expr_ix"]
 
 def _classify(aspect, exp, got, d):
     """root-cause refinement of a mismatch"""
+    names = [d["name"], d["pkname"] or ""] + [c["name"] for c in d["cols"]] + [u["name"] or "" for u in d["uqs"]] + [f["name"] or "" for f in d["fks"]] + [f.get("tname", "") for f in d["fks"]]
+    if aspect in ("fks", "uqs", "pk") and any("$" in x for x in names):
+        return "dollar-in-unquoted-identifier"
+    if aspect == "cks" and len(got) > len(exp) and any(c["default"] and c["default"][0] in ("str", "rawstr") and "CHECK" in str(c["default"][1]).upper() for c in d["cols"]):
+        return "ck/phantom-check-in-string-literal"
     if aspect == "fks" and len(exp) == len(got):
         for a, b in zip(exp, got):
             if a[1:5] == b[1:5] and (a[0] != b[0] or a[5] != b[5]):
@@ -450,6 +488,8 @@ def check_sqlite(case, ctx):
             got = observe(conn, keys)
             for d in tabs:
                 k = (d["schema"], d["name"])
+                if got[k]["warnings"] and "could not be located in PRAGMA" in got[k]["warnings"][0] and _classify("fks", [], [], d) == "dollar-in-unquoted-identifier":
+                    raise Violation("C15/reflect/dollar-in-unquoted-identifier", f"table {k}: {got[k]['warnings'][0]}", observed=got[k]["warnings"])
                 if got[k]["warnings"]:
                     raise Violation("C15/reflect/unexpected-warning", f"table {k}: {got[k]['warnings'][0]}", observed=got[k]["warnings"])
                 for a in ASPECTS:
@@ -469,7 +509,20 @@ def check_sqlite(case, ctx):
         if sorted(md2.tables) != sorted((d["schema"] + "." if d["schema"] else "") + d["name"] for d in tabs):
             raise Violation("C15/fixedpoint/tables", f"MetaData.reflect found {sorted(md2.tables)}", observed=sorted(md2.tables))
         with e2.connect() as conn2:
-            md2.create_all(conn2)
+            from sqlalchemy import exc as sa_exc
+
+            try:
+                md2.create_all(conn2)
+            except sa_exc.NoReferencedTableError as e:
+                dotted = any("." in tabs[f["target"]]["name"] or any("." in tabs[f["target"]]["cols"][x]["name"] for x in f["rcols"]) for d in tabs for f in d["fks"])
+                if dotted:
+                    raise Violation("C15/fixedpoint/fk-target-name-with-dot", f"reflected FK cannot be resolved because the referred table/column name contains a dot: {e}", observed=str(e)[:400])
+                raise
+            except sa_exc.OperationalError as e:
+                if "syntax error" in str(e) and re.search(r"DEFAULT '[^\n]*' \|\|", str(e)):
+                    raise Violation("C15/fixedpoint/quoted-expression-default-not-parenthesised",
+                                    "an expression default that starts with a quote is reflected without its parentheses and re-created as DEFAULT 'a' || 'b' (syntax error)", observed=str(e)[:600])
+                raise
             conn2.commit()
             full2 = observe(conn2, keys, full=True)
         for d in tabs:
@@ -509,7 +562,225 @@ def _schemas(draw):
     return {"tables": tables}
 
 
+# ============================================================================= MySQL SHOW CREATE TABLE parser round trip
+MY_NAMES = ["id", "name", "user id", "Mixed", "order", "naïve", "a.b", "we'ird", "x-y", "col_7", "data", "ts", "sel ect"]
+MY_STR = ["0", "abc", "it's", "a,b", "(x)", "", "100%", "NULL"]
+MY_COMMENTS = ["plain", "it's", "a,b (c)", "COMMENT 'x'", "50% \\ done"]
+MY_ACTIONS = [None, "CASCADE", "SET NULL", "RESTRICT", "NO ACTION", "SET DEFAULT"]
+
+
+def _my_types():
+    from sqlalchemy.dialects import mysql as my
+
+    return [
+        lambda: my.INTEGER(), lambda: my.BIGINT(), lambda: my.SMALLINT(), lambda: my.VARCHAR(30), lambda: my.TEXT(), lambda: my.DECIMAL(10, 2), lambda: my.DATETIME(),
+        lambda: my.DATETIME(fsp=6), lambda: my.FLOAT(), lambda: my.DOUBLE(), lambda: my.ENUM("a", "b c", "it's", "x,y"), lambda: my.TINYINT(1), lambda: my.INTEGER(unsigned=True),
+        lambda: my.VARCHAR(20, charset="latin1", collation="latin1_bin"), lambda: my.DATE(), lambda: my.BLOB(), lambda: my.CHAR(3), lambda: my.SET("r", "w"), lambda: my.TIMESTAMP(),
+        lambda: my.BIGINT(unsigned=True, zerofill=True), lambda: my.LONGTEXT(), lambda: my.TIME(fsp=3), lambda: my.JSON(), lambda: my.VARBINARY(16),
+    ]
+
+
+def _bq(name):
+    return "`" + name.replace("`", "``") + "`"
+
+
+def _sq(s):
+    return "'" + s.replace("'", "''") + "'"
+
+
+def _my_norm(case):
+    cols, seen = [], set()
+    for c in case["cols"][:6]:
+        nm = MY_NAMES[c[0] % len(MY_NAMES)] if not (case.get("pinned") and isinstance(c[0], str)) else c[0]
+        if nm.lower() in seen:
+            continue
+        seen.add(nm.lower())
+        cols.append({"name": nm, "type": c[1] % 24, "notnull": bool(c[2]), "default": c[3], "comment": c[4]})
+    n = len(cols)
+    pk = list(dict.fromkeys(x % n for x in case.get("pk", [])))[:2]
+    keys = []
+    for k, key in enumerate(case.get("keys", [])[:3]):
+        kc = list(dict.fromkeys(x % n for x in key[0]))[:3]
+        keys.append({"cols": kc, "type": [None, "UNIQUE", None, "FULLTEXT"][key[1] % 4], "length": key[2] if key[2] else None, "using": [None, "BTREE", "HASH"][key[3] % 3],
+                     "name": "k%d_%s" % (k, MY_NAMES[key[4] % len(MY_NAMES)]), "comment": key[5]})
+    fks = []
+    for k, fk in enumerate(case.get("fks", [])[:2]):
+        lc = list(dict.fromkeys(x % n for x in fk[0]))[:2]
+        fks.append({"cols": lc, "table": MY_NAMES[fk[1] % len(MY_NAMES)] + "_p", "schema": "other db" if fk[2] else None, "rcols": [MY_NAMES[(fk[1] + i + 1) % len(MY_NAMES)] for i in range(len(lc))],
+                    "ondelete": MY_ACTIONS[fk[3] % 6], "onupdate": MY_ACTIONS[fk[4] % 6], "name": "fk%d_%s" % (k, MY_NAMES[fk[5] % len(MY_NAMES)])})
+    cks = [{"name": "ck%d" % k, "text": "(%s > %d)" % (_bq(cols[ck[0] % n]["name"]), ck[1])} for k, ck in enumerate(case.get("cks", [])[:2])]
+    return {"table": MY_NAMES[case["table"] % len(MY_NAMES)] + "_t", "cols": cols, "pk": pk, "keys": keys, "fks": fks, "cks": cks, "comment": case.get("comment"), "mariadb": bool(case.get("mariadb"))}
+
+
+def _my_render(d, ctx=None):
+    """SHOW CREATE TABLE text in the server's documented layout (two-space indent, back-quoted names, one item per line)"""
+    from sqlalchemy.dialects import mysql as my
+
+    dia = my.dialect()
+    types = _my_types()
+    lines, exp_cols = [], []
+    for ci, c in enumerate(d["cols"]):
+        t = types[c["type"]]()
+        tstr = dia.type_compiler_instance.process(t)
+        m = re.match(r"^(\w+)(.*)$", tstr, re.S)
+        tstr = m.group(1).lower() + m.group(2)  # the server prints the type keyword in lower case
+        if not tstr.startswith(("enum", "set")):
+            tstr = tstr.replace(", ", ",")  # ... and numeric arguments without a space: decimal(10,2)
+        line = "  %s %s" % (_bq(c["name"]), tstr)
+        autoinc = bool(d["pk"]) and d["pk"][0] == ci and c["type"] in (0, 1, 2, 12)
+        notnull = c["notnull"] or ci in d["pk"]
+        default = None
+        if notnull:
+            line += " NOT NULL"
+        if c["default"] is not None and not autoinc and c["type"] not in (4, 15, 20, 22):
+            kind, v = c["default"]
+            if kind == "str":
+                default = _sq(MY_STR[v % len(MY_STR)])
+            elif kind == "ts" and c["type"] in (6, 7, 18):
+                default = ["CURRENT_TIMESTAMP", "CURRENT_TIMESTAMP ON UPDATE CURRENT_TIMESTAMP"][v % 2] if c["type"] != 7 else "CURRENT_TIMESTAMP(6)"
+            elif kind == "expr":
+                default = ["(uuid())", "(now() + interval 1 day)" if d.get("pinned") else "(pi())", "(_utf8mb4'a')"][v % 3]
+                if v % 3 == 1 and not d.get("pinned") and ctx is not None:
+                    ctx.exclude("expression default with nested parentheses followed by a space (known finding: DEFAULT regex stops at the first ')')")
+            elif kind == "num":
+                default = _sq(str(v))
+        if default is not None:
+            line += " DEFAULT " + default
+        elif not notnull:
+            line += " DEFAULT NULL"
+        if autoinc:
+            line += " AUTO_INCREMENT"
+        comment = MY_COMMENTS[c["comment"] % len(MY_COMMENTS)] if c["comment"] is not None else None
+        if comment is not None:
+            line += " COMMENT " + _sq(comment.replace("\\", "\\\\"))
+        lines.append(line)
+        e = {"name": c["name"], "type": repr(t), "nullable": not notnull, "default": default, "comment": comment}
+        if autoinc:
+            e["autoincrement"] = True
+        elif c["type"] in (0, 1, 2, 11, 12, 19):
+            e["autoincrement"] = False
+        exp_cols.append(e)
+    exp_keys = []
+    if d["pk"]:
+        lines.append("  PRIMARY KEY (%s)" % ",".join(_bq(d["cols"][x]["name"]) for x in d["pk"]))
+        exp_keys.append(("PRIMARY", None, tuple((d["cols"][x]["name"], None) for x in d["pk"]), None, None))
+    for k in d["keys"]:
+        parts = []
+        for j, x in enumerate(k["cols"]):
+            ln = k["length"] if (j == 0 and k["length"] and d["cols"][x]["type"] in (3, 4, 13, 16, 20)) else None
+            parts.append((d["cols"][x]["name"], ln))
+        line = "  %sKEY %s (%s)" % ((k["type"] + " ") if k["type"] else "", _bq(k["name"]), ",".join(_bq(a) + ("(%d)" % b if b else "") for a, b in parts))
+        using = k["using"] if k["type"] != "FULLTEXT" else None
+        if using:
+            line += " USING " + using
+        kc = MY_COMMENTS[k["comment"] % len(MY_COMMENTS)] if k["comment"] is not None else None
+        if kc is not None:
+            line += " COMMENT " + _sq(kc.replace("\\", "\\\\"))
+        lines.append(line)
+        exp_keys.append((k["type"], k["name"], tuple(parts), None, kc))  # (USING is parsed but not consumed by the dialect: not compared)
+    exp_fks = []
+    for f in d["fks"]:
+        tbl = (_bq(f["schema"]) + "." if f["schema"] else "") + _bq(f["table"])
+        line = "  CONSTRAINT %s FOREIGN KEY (%s) REFERENCES %s (%s)" % (_bq(f["name"]), ",".join(_bq(d["cols"][x]["name"]) for x in f["cols"]), tbl, ",".join(_bq(x) for x in f["rcols"]))
+        if f["ondelete"]:
+            line += " ON DELETE " + f["ondelete"]
+        if f["onupdate"]:
+            line += " ON UPDATE " + f["onupdate"]
+        lines.append(line)
+        exp_fks.append((f["name"], tuple(d["cols"][x]["name"] for x in f["cols"]), tuple(([f["schema"]] if f["schema"] else []) + [f["table"]]), tuple(f["rcols"]), f["ondelete"], f["onupdate"]))
+    exp_cks = []
+    for ck in d["cks"]:
+        lines.append("  CONSTRAINT %s CHECK (%s)" % (_bq(ck["name"]), ck["text"]))
+        exp_cks.append((ck["name"], ck["text"]))
+    tail = ") ENGINE=InnoDB AUTO_INCREMENT=7 DEFAULT CHARSET=utf8mb4 COLLATE=utf8mb4_0900_ai_ci"
+    exp_opts = {"mysql_engine": "InnoDB", "mysql_default charset": "utf8mb4", "mysql_collate": "utf8mb4_0900_ai_ci"}
+    tc = MY_COMMENTS[d["comment"] % len(MY_COMMENTS)] if d["comment"] is not None else None
+    if tc is not None:
+        tail += " COMMENT=" + _sq(tc.replace("\\", "\\\\"))
+        exp_opts["mysql_comment"] = tc
+    text = "CREATE TABLE %s (\n%s\n%s" % (_bq(d["table"]), ",\n".join(lines), tail)
+    return text, {"cols": exp_cols, "keys": exp_keys, "fks": exp_fks, "cks": exp_cks, "opts": exp_opts}
+
+
+def check_mysql(case, ctx):
+    from sqlalchemy.dialects import mysql as my
+    from sqlalchemy.dialects.mysql.reflection import MySQLTableDefinitionParser
+
+    d = _my_norm(case)
+    d["pinned"] = bool(case.get("pinned"))
+    text, exp = _my_render(d, ctx)
+    classes = set()
+    if d["keys"]:
+        classes.add("keys")
+    if d["fks"]:
+        classes.add("fks")
+    if d["cks"]:
+        classes.add("checks")
+    if any(c["default"] is not None for c in d["cols"]):
+        classes.add("defaults")
+    if any(c["comment"] is not None for c in d["cols"]):
+        classes.add("comments")
+    if any(k["length"] for k in d["keys"]):
+        classes.add("prefix-key")
+    ctx.note(case, bool(d["keys"] or d["fks"]), classes=classes)
+    dia = my.dialect()
+    parser = MySQLTableDefinitionParser(dia, dia.identifier_preparer)
+    with warnings.catch_warnings(record=True) as w:
+        warnings.simplefilter("always")
+        state = parser.parse(text, "utf8mb4")
+    if w:
+        raise Violation("C15/mysql-parser/warning", f"parser warned on well-formed SHOW CREATE TABLE text: {w[0].message}", observed=text, expected="no warning")
+    if state.table_name != d["table"]:
+        raise Violation("C15/mysql-parser/table-name", f"{state.table_name!r} != {d['table']!r}", observed=state.table_name, expected=d["table"])
+    got_cols = []
+    for c in state.columns:
+        e = {"name": c["name"], "type": repr(c["type"]), "nullable": c["nullable"], "default": c["default"], "comment": c["comment"]}
+        if "autoincrement" in c:
+            e["autoincrement"] = c["autoincrement"]
+        got_cols.append(e)
+    if [c["name"].replace("``", "`") for c in got_cols] == [c["name"] for c in exp["cols"]] != [c["name"] for c in got_cols]:
+        raise Violation("C15/mysql-parser/escaped-backtick-not-unescaped", f"column names {[c['name'] for c in got_cols]}: the doubled back-quote of the SHOW CREATE TABLE text is not unescaped (defined {[c['name'] for c in exp['cols']]})",
+                        observed=[c["name"] for c in got_cols], expected=[c["name"] for c in exp["cols"]])
+    if [c["name"] for c in got_cols] != [c["name"] for c in exp["cols"]]:
+        raise Violation("C15/mysql-parser/column-names", f"columns {[c['name'] for c in got_cols]} != {[c['name'] for c in exp['cols']]}", observed=text)
+    for g, e in zip(got_cols, exp["cols"]):
+        for f in ("type", "nullable", "default", "comment", "autoincrement"):
+            if f == "default" and g.get(f) != e.get(f) and e.get(f) and e[f].startswith("(") and e[f].startswith(g.get(f) or "\0") and e[f].count("(") > 1:
+                raise Violation("C15/mysql-parser/default-nested-parens-truncated", f"column {e['name']!r}: expression default {e[f]!r} parsed as {g.get(f)!r} (the DEFAULT pattern stops at the first ')' that is followed by a space)",
+                                observed=g.get(f), expected=e[f])
+            if g.get(f) != e.get(f):
+                raise Violation(f"C15/mysql-parser/column-{f}", f"column {e['name']!r}: parsed {f} = {g.get(f)!r}, defined {e.get(f)!r}; line: {[l for l in text.splitlines() if _bq(e['name']) in l][:1]}", observed=g.get(f), expected=e.get(f))
+    got_keys = [(k["type"], k["name"], tuple((c[0], c[1]) for c in k["columns"]), None, (k["comment"][1:-1].replace("''", "'").replace("\\\\", "\\") if k.get("comment") else None)) for k in state.keys]
+    if got_keys != exp["keys"]:
+        raise Violation("C15/mysql-parser/keys", f"parsed keys {got_keys} != defined {exp['keys']}", observed=got_keys, expected=exp["keys"])
+    got_fks = [(f["name"], tuple(f["local"]), tuple(f["table"]), tuple(f["foreign"]), f.get("ondelete"), f.get("onupdate")) for f in state.fk_constraints]
+    if got_fks != exp["fks"]:
+        raise Violation("C15/mysql-parser/foreign-keys", f"parsed FKs {got_fks} != defined {exp['fks']}", observed=got_fks, expected=exp["fks"])
+    got_cks = [(c["name"], c["sqltext"]) for c in state.ck_constraints]
+    if got_cks != exp["cks"]:
+        raise Violation("C15/mysql-parser/checks", f"parsed CHECKs {got_cks} != defined {exp['cks']}", observed=got_cks, expected=exp["cks"])
+    got_opts = {k: v for k, v in state.table_options.items()}
+    if got_opts != exp["opts"]:
+        raise Violation("C15/mysql-parser/table-options", f"parsed options {got_opts} != {exp['opts']}", observed=got_opts, expected=exp["opts"])
+
+
+_mydefault = st.one_of(st.none(), st.tuples(st.sampled_from(["str", "ts", "expr", "num"]), st.integers(0, 9)).map(list))
+
+
+@st.composite
+def _my_cases(draw):
+    cols = [[draw(st.integers(0, 12)), draw(st.integers(0, 23)), int(draw(st.booleans())), draw(_mydefault), draw(st.one_of(st.none(), st.integers(0, 4)))] for _ in range(draw(st.integers(1, 6)))]
+    return {"table": draw(st.integers(0, 12)), "cols": cols, "pk": draw(st.lists(_ci, max_size=2)),
+            "keys": [[draw(st.lists(_ci, min_size=1, max_size=3)), draw(st.integers(0, 3)), draw(st.sampled_from([0, 0, 5, 10])), draw(st.integers(0, 2)), draw(st.integers(0, 12)), draw(st.one_of(st.none(), st.integers(0, 4)))]
+                     for _ in range(draw(st.integers(0, 3)))],
+            "fks": [[draw(st.lists(_ci, min_size=1, max_size=2)), draw(st.integers(0, 12)), int(draw(st.integers(0, 3)) == 0), draw(st.integers(0, 5)), draw(st.integers(0, 5)), draw(st.integers(0, 12))]
+                    for _ in range(draw(st.integers(0, 2)))],
+            "cks": [[draw(_ci), draw(st.integers(0, 9))] for _ in range(draw(st.integers(0, 2)))],
+            "comment": draw(st.one_of(st.none(), st.integers(0, 4)))}
+
+
 def subs(tier):
     return [
         Generated("sqlite", check_sqlite, strategy=_schemas(), quick=400, thorough=30000),
+        Generated("mysql_parser", check_mysql, strategy=_my_cases(), quick=1500, thorough=60000),
     ]
